@@ -442,6 +442,9 @@ def _run_classic(case, entry, klass, ctx):  # noqa: C901
         del _SIGN_LOG[:]
         dc.sign()
         data = dc.export()
+        if dc.export() != data:
+            ctx.violation("dc-second-export-of-the-signed-object-differs", {"case": case, "len": len(data)})
+            return
     except SPSDKError as e:
         ctx.refused(sig, core.exc_brief(e))
         ctx.count("dc_refused")
